@@ -443,6 +443,27 @@ pub fn check_all<'a, P: DDNNFPtr<'a>>(p: P, f: TT, n: usize, s: &Suites, evals: 
             Err(e) => return Some(format!("evaluate panicked: {}", e)),
         }
     }
+    // evaluation is a query with a history as well: every ordered pair of calls with an assignment
+    // over the diagram's n variables and one over a universe that is one variable wider, back to
+    // back in both orders (n <= 3; the wider assignment's extra entry is ignored by the function)
+    if n <= 3 {
+        for a in 0..(1usize << n) {
+            let va = tt::assignment_vec(a, n);
+            for b in 0..(1usize << (n + 1)) {
+                let vb = tt::assignment_vec(b, n + 1);
+                let wb = tt::eval(f, b & ((1 << n) - 1));
+                *evals += 4;
+                match guarded(|| (p.evaluate(&va), p.evaluate(&vb), p.evaluate(&vb), p.evaluate(&va))) {
+                    Ok((r1, r2, r3, r4)) => {
+                        if r1 != tt::eval(f, a) || r4 != tt::eval(f, a) || r2 != wb || r3 != wb {
+                            return Some(format!("evaluate({:?}), evaluate({:?}), evaluate({:?}), evaluate({:?}) back to back = {}, {}, {}, {}; the function gives {}, {}, {}, {}", va, vb, vb, va, r1, r2, r3, r4, tt::eval(f, a), wb, wb, tt::eval(f, a)));
+                        }
+                    }
+                    Err(e) => return Some(format!("evaluate over a wider universe panicked: {}", e)),
+                }
+            }
+        }
+    }
     None
 }
 
